@@ -292,7 +292,7 @@ func (s *Stack[T]) Head() *Item[T] { s.lazyInit(); return s.head }
 // of the stack, which will report a false Ok() value.
 func (s *Stack[T]) Pop() *Item[T] {
 	if s.head == nil {
-		s.head = &Item[T]{}
+		s.lazyInit()
 		return s.head
 	}
 	if s.length == 0 {
